@@ -3,7 +3,7 @@
 # suite passes with the change, demo fails with it and passes without it.
 set -u
 P=$1; X=$2
-SRC=/tmp/seed_out/$P/$X
+SRC=${SEED_SRC:-/tmp/seed_out}/$P/$X
 WT=/tmp/confirm_wt_${P}_$X
 export GOFLAGS=-mod=mod GOPROXY=off GOTOOLCHAIN=auto
 git -C /repo worktree add -q --detach $WT HEAD || exit 2
